@@ -376,11 +376,11 @@ check("C23", "internal/zzverif/c23",
 
 check("C26", "internal/zzverif/c26",
       rule="case = one chain of 20..44 valid blocks on a synthetic genesis (6 validators, a service with storage; slot gaps 1, 2..4 and more than an epoch; 0..K ring-signed tickets per block so that later epochs are ticket-sealed; epoch marks and tickets marks where due), produced by a GP chapter 6 model with the VRF stand-in and imported through fuzz.FuzzServiceStub: "
-           "(1) a control node imports the valid blocks only and defines every block's root; (2) a second fresh node must reproduce the first roots; (3) a node under test imports the same chain with 0..2 hostile imports before each block: slot not advancing, wrong parent state root, wrong extrinsic hash, unsorted tickets under a correct hash and seal, flipped seal byte, flipped entropy-source byte, wrong author (all re-sealed so that only the named defect is present), three kinds that pass every header check and fail late in the transition (unsolicited preimage, assurance / guarantee with bad signatures), a valid sibling fork, a re-import of an earlier block; half of the rejected blocks are retried, and after a third of them the next valid block is re-parented onto the rejected block, sealed again and imported (a node that never saw the rejected block does not know that parent). "
+           "(1) a control node imports the valid blocks only and defines every block's root; (2) a second fresh node must reproduce the first roots; (3) a node under test imports the same chain with 0..2 hostile imports before each block: slot not advancing, wrong parent state root, wrong extrinsic hash, unsorted tickets under a correct hash and seal, flipped seal byte, flipped entropy-source byte, wrong author (all re-sealed so that only the named defect is present), four kinds that pass every header check and fail late in the transition (unsolicited preimage, assurance / guarantee with bad signatures, a re-signed ticket that is already in the parent's accumulator — the rejection reasons of that kind are counted), a valid sibling fork, a re-import of an earlier block; half of the rejected blocks are retried, and after a third of them the next valid block is re-parented onto the rejected block, sealed again and imported (a node that never saw the rejected block does not know that parent). "
            "Judged: every hostile invalid block is rejected, and rejected again on retry for the same reason (except the guarantee whose two bad signatures are checked by concurrent workers); no child of a rejected block is accepted; after a rejection GetState of the last three imported blocks returns exactly the key-values it returned before; every valid block imports with the control node's root; GetState(head) merklizes to the returned root. distinct_nontrivial = distinct hostile traces",
       technique="offline comparison of import logs from a control run and a hostile run of the real node (FuzzServiceStub), block producer = reference model of GP chapter 6 with the deterministic VRF stand-in",
       level_text="Generated chains with invalid blocks, retries and forks are imported and compared with a control import of the valid blocks; held = same roots, unchanged stored state after every rejection, on everything explored.",
       note="Runs under JAM_FUZZ=1 (the conformance configuration: in-memory store, 24-block retention). Only the tickets extrinsic is non-empty; guarantees, assurances, disputes and preimages are covered by their own checks at their STF boundaries. Blocks are valid with respect to the VRF stand-in, not real Bandersnatch.",
       shards=(8, 16), env={"JAM_FUZZ": "1"}, timeout=(1200, 7200),
-      floors={"any": {"valid_blocks_on_the_node_under_test": 1500, "rejections": 500, "retries_of_rejected_blocks": 200, "forks": 60, "ticket_sealed_blocks": 100, "epoch_changes": 100, "late_failing_blocks": 200, "children_of_rejected_blocks": 100}},
+      floors={"any": {"valid_blocks_on_the_node_under_test": 1500, "rejections": 500, "retries_of_rejected_blocks": 200, "forks": 60, "ticket_sealed_blocks": 100, "epoch_changes": 100, "late_failing_blocks": 200, "children_of_rejected_blocks": 100, "hostile: ticket already in the accumulator": 40}},
       assumptions=[STANDIN_VRF])
